@@ -15,8 +15,10 @@ U = ['\x00', 'a', '\x7f', '\x80', '\u07ff', '\u0800', '\ud7ff', '\ue000', '\ufff
 CAT = '흑 흑♥ 항. 형. 하앙 흣.... 항♥?'
 # test-first copier (written by a seeding sub-agent): no trailer, except that empty input yields one NaN text
 CAT2 = '흑 흣...💘 흣.? 흑 흣...💘?'
+# loop copier that leaves stack 0 to test for end of input and comes back (parks a NaN on stack 0)
+CAT3 = '흑 흑.... 항... 흐윽....♥ 흑 항.... 항. 흑.... 형 하앗....♥?'
 PROGRAMS = [('copy1', '흑 항.'), ('copy2', '흑 항. 항.'), ('copy3', '흑 항. 항. 항.'), ('copy4', '흑 항. 항. 항. 항.'),
-            ('cat', CAT), ('cat-stderr', '흑 흑♥ 항.. 형. 하앙 흣.... 항♥?'), ('cat2', CAT2)]
+            ('cat', CAT), ('cat-stderr', '흑 흑♥ 항.. 형. 하앙 흣.... 항♥?'), ('cat2', CAT2), ('cat3', CAT3)]
 
 
 def expected_output(name, text):
@@ -25,7 +27,7 @@ def expected_output(name, text):
         k = int(name[4:])
         chars = list(text[:k])
         return ''.join(chars) + R.NAN_TEXT * (k - len(chars))
-    if name == 'cat2':
+    if name in ('cat2', 'cat3'):
         return text if text else R.NAN_TEXT
     return text + R.NAN_TEXT
 
@@ -169,7 +171,7 @@ def run_c14(tier):
     if not problems:
         bulk = bulk_texts(tier)
         for t in bulk:
-            for nm in ('cat', 'copy3', 'cat-stderr', 'cat2'):
+            for nm in ('cat', 'copy3', 'cat-stderr', 'cat2', 'cat3'):
                 tasks.append((d, [t], [nm]))
         if tier == 'quick':
             # all texts of length <= 2 through every program; length 3 through cat and copy2
